@@ -546,7 +546,8 @@ ResultsStable(h) == \A i \in DOMAIN h : h[i].end = h[i].ret
 (*   layp  a value decoded into a destination that holds a previously      *)
 (*         decoded value (pairs of value classes)                          *)
 (*   lvm   one first byte                                                  *)
-(*   nts   a packet shape (lengths; contents are filled deterministically) *)
+(*   nts   a packet shape (lengths; contents are filled deterministically;  *)
+(*         placeholder bodies by class: zero / first / last / rand)        *)
 (*   sck / eck / crypt   cookie shapes                                     *)
 (***************************************************************************)
 CONSTANTS SweepPrefixes2,   \* high bytes for which a 2-byte field is swept over all 256 low bytes
@@ -614,23 +615,52 @@ RECURSIVE SumPad(_)
 SumPad(ls) == IF ls = << >> THEN 0 ELSE 4 + Pad4(Head(ls)) + SumPad(Tail(ls))
 NtsShapeLen(x) == 4 + Pad4(x.uid) + SumPad(x.ck) + SumPad(x.ph) + 8 + 16 + Pad4(16 + SumPad(x.pt))
 NtsFits(x) == NtpHdrLen + NtsShapeLen(x) <= MaxPacketLen
+\* Contents of a body the decoder may ignore.  CookiePlaceholder.pack copies the caller's bytes to
+\* the wire unchanged and the receiver "will ignore" them (they merely "should be 0"), so every body
+\* is a value the encoder can emit: the placeholder clause is quantified over the body contents too.
+\* (EncodePacket emits no other field with an ignored body: padding is written by the pack methods
+\* themselves, always zero, and fields of unknown type cannot be encoded.)
+\* Body classes per placeholder: all zero, a single non-zero byte first / last, every byte non-zero.
+\* phb[i] is the class of placeholder i.  Assignments for n placeholders: all zero; one placeholder j
+\* of a non-zero class, the others zero (every j, every class); all of them "rand".
+NtsPhClasses == {"zero", "first", "last", "rand"}
+PhAllOf(n, cl) == [i \in 1 .. n |-> cl]
+PhAssign(n) ==
+  {PhAllOf(n, "zero")}
+    \cup {[i \in 1 .. n |-> IF i = j THEN cl ELSE "zero"] : j \in 1 .. n, cl \in NtsPhClasses \ {"zero"}}
+    \cup (IF n >= 1 THEN {PhAllOf(n, "rand")} ELSE {})
+\* real-sized requests (NewRequestPacket, bodies overwritten by the caller): the last placeholder
+PhAssignApi(n) ==
+  {PhAllOf(n, "zero")}
+    \cup {[i \in 1 .. n |-> IF i = n THEN cl ELSE "zero"] : cl \in (IF n >= 1 THEN NtsPhClasses \ {"zero"} ELSE {})}
+    \cup (IF n >= 2 THEN {PhAllOf(n, "rand")} ELSE {})
+PhNonZero(bs) == \E i \in DOMAIN bs : bs[i] # "zero"
+NtsPhShapes == UNION {{[i \in 1 .. n |-> l] : n \in 0 .. NtsMaxPh} : l \in NtsPhLens}
+\* (non-zero bodies are generated for packets without encrypted cookies: placeholders are sent in
+\* requests, NewResponsePacket never carries one)
 NtsCasesOf(g) ==
-  {x \in {[k |-> "nts", uid |-> g.uid, ck |-> g.ck, ph |-> ps, pt |-> ts] :
-             ps \in UNION {{[i \in 1 .. n |-> l] : n \in 0 .. NtsMaxPh} : l \in NtsPhLens}, ts \in NtsPtShapes} :
-     NtsFits(x)}
+  {x \in UNION {{[k |-> "nts", uid |-> g.uid, ck |-> g.ck, ph |-> ps, phb |-> bs, pt |-> ts] :
+                    bs \in PhAssign(Len(ps)), ts \in NtsPtShapes} : ps \in NtsPhShapes} :
+     NtsFits(x) /\ (PhNonZero(x.phb) => x.pt = << >>)}
 \* NewRequestPacket for ntske.Data with n cookies of length cl: one cookie, 8-n placeholders
 \* NewResponsePacket with n cookies of length cl (it keeps only as many cookies as fit MaxPacketLen:
 \* (1280 - 48 - 36 - 40) \div 128 = 9 for 124-byte cookies, so all n <= 8 are kept)
 NtsApiShape(x) == IF x.api = "req"
-                  THEN [uid |-> 32, ck |-> <<x.cl>>, ph |-> [i \in 1 .. (8 - x.n) |-> x.cl], pt |-> << >>]
-                  ELSE [uid |-> 32, ck |-> << >>, ph |-> << >>, pt |-> [i \in 1 .. x.n |-> x.cl]]
-NtsApiCases == {x \in {[k |-> "ntsapi", api |-> a, n |-> n, cl |-> 124] : a \in {"req", "resp"}, n \in 1 .. 8} :
+                  THEN [uid |-> 32, ck |-> <<x.cl>>, ph |-> [i \in 1 .. (8 - x.n) |-> x.cl], phb |-> x.phb, pt |-> << >>]
+                  ELSE [uid |-> 32, ck |-> << >>, ph |-> << >>, phb |-> << >>, pt |-> [i \in 1 .. x.n |-> x.cl]]
+NtsApiCases == {x \in UNION {{[k |-> "ntsapi", api |-> a, n |-> n, cl |-> 124, phb |-> bs] :
+                                  bs \in (IF a = "req" THEN PhAssignApi(8 - n) ELSE {<< >>})} :
+                               a \in {"req", "resp"}, n \in 1 .. 8} :
                   NtsFits(NtsApiShape(x))}
 \* deterministic contents
 Content(n, tag) == [i \in 1 .. n |-> ((tag * 37 + i * 11) % 251) + 1]
+PhBody(n, cl, tag) == CASE cl = "zero" -> Zeros(n)
+                        [] cl = "first" -> [i \in 1 .. n |-> IF i = 1 THEN 255 ELSE 0]
+                        [] cl = "last" -> [i \in 1 .. n |-> IF i = n THEN 1 ELSE 0]
+                        [] cl = "rand" -> Content(n, tag)          \* every byte in 1 .. 251
 NtsPacket(x) == [uid |-> Content(x.uid, 1),
                  ck |-> [i \in DOMAIN x.ck |-> Content(x.ck[i], 10 + i)],
-                 ph |-> [i \in DOMAIN x.ph |-> Zeros(x.ph[i])],
+                 ph |-> [i \in DOMAIN x.ph |-> PhBody(x.ph[i], x.phb[i], 30 + i)],
                  pt |-> [i \in DOMAIN x.pt |-> Content(x.pt[i], 20 + i)]]
 NtsShapeOf(x) == IF x.k = "ntsapi" THEN NtsApiShape(x) ELSE x
 
